@@ -11,6 +11,8 @@ type C16Case struct {
 	// Versions is the value of PLUGIN_PROTOCOL_VERSIONS: "" means the default "1,2"; "unset" leaves the
 	// variable out, "empty" sets it to the empty string; anything else is passed literally (no common version, non-integer entries, blanks).
 	Versions string `json:"versions,omitempty"`
+	// PreTest: the process first serves once in test mode (and stops), then serves for real
+	PreTest bool `json:"preTest,omitempty"`
 }
 
 type C16Obs struct {
